@@ -24,6 +24,39 @@ def generate(rng, tier):
         policy = "may" if (w // 2) % 2 == 0 else "must"
         nm, s = suites.dwarf_world(rng, arch, nmods=3, nf=5, nprobes=80, policy=policy, with_iter=True)
         out.append(("%s-%d" % (nm, w), s))
+    for arch in ("x86", "a64"):
+        nm, s = suites.empty_fde_world(rng, arch, "must" if arch == "x86" else "may")
+        out.append((nm, s))
+    # stack pointers and frame pointers at the very bottom of the address space against rows whose CFA is the register
+    # plus 0..16: `new_sp - 8` in the rule execution (S3) and `cfa - 8` in the generic evaluation (S4) then have nothing
+    # to subtract from. Translatable rows (offsets that are multiples of 8, slots at -8 / -16) and untranslatable ones
+    # (offsets 4, 12; return address by val_offset / in a register / at an unreadable slot) side by side.
+    from fhgen import Script as _Script, hx as _hx, ARCH_REGS as _AR
+    for arch in ("x86", "a64"):
+        R = _AR[arch]
+        rows = []
+        for reg in (R["sp"], R["fp"]):
+            for off in (0, 4, 8, 12, 16):
+                for rar in (("o", -8), ("o", -16), ("o", -12), ("s",), ("vo", -8), ("reg", 3)):
+                    for fpr in (("s",), ("o", -16)):
+                        rows.append(dict(cfa=("r", reg, off), fp=fpr, ra=rar))
+        for ci in range(0, len(rows), 60):
+            part = rows[ci:ci + 60]
+            s = _Script(arch, "may" if (ci // 60) % 2 == 0 else "must")
+            fdes = [dict(start=0x1000 + 0x10 * i, len=0x10, rows=[(0, r)]) for i, r in enumerate(part)]
+            s.module_dwarf("M", 0x100000, 0x100000 + 0x1000 + 0x10 * len(part) + 0x100, 0x100000, 0, ["hdr", "eh", "debug"][(ci // 60) % 3], fdes, rng, shuffle=True)
+            s.add("new U"); s.add("add U M"); s.add("newcache C")
+            s.mem("E", [])
+            s.mem("Z", [(a, rng.choice([0, 0x100000 + 0x1000 + 0x10 * rng.below(len(part)), 8 * rng.below(8)])) for a in range(0, 0x80, 8)])
+            for i, r in enumerate(part):
+                for (spv, fpv) in ((0, 0), (0, 8), (7, 1), (8, 0), (4, 16), (16, 7)):
+                    for kind in ("ip", "ra"):
+                        a = 0x100000 + 0x1000 + 0x10 * i + 1
+                        addr = a if kind == "ip" else a + 1
+                        regs = s.regs_x86(a, spv, fpv) if arch == "x86" else s.regs_a64((1 << 48) - 1, a, spv, fpv)
+                        s.add("unwind U C %s %s %s %s" % (kind, _hx(addr), regs, "E" if (spv + fpv) % 3 == 0 else "Z"),
+                              tag="%s:lowsp:%s:%s:%s" % (arch, "sp" if r["cfa"][1] == R["sp"] else "fp", r["ra"][0], kind))
+            out.append(("lowsp-%s-%d" % (arch, ci // 60), s))
     # valid PE modules (programs of C03's generator), every instruction boundary, boundary-value registers
     import petruth
     from fhgen import Script, hx, BOUNDARY, module_pe, M64
